@@ -5,13 +5,19 @@ cd "$(dirname "$0")"
 export CARGO_NET_OFFLINE=true RUST_BACKTRACE=0
 mkdir -p build/bin evidence replays
 # 1. Coq: full .vo build of the whole development
+python3 -c "import sys; sys.path.insert(0,'.'); from vlib import common as C; C.write_coqproject()"
 (cd coq && coq_makefile -f _CoqProject -o Makefile > /dev/null && timeout 3000 make -j16 > ../build/coq-build.log 2>&1) || { tail -50 build/coq-build.log; echo "coq build failed"; exit 1; }
 # 2. extracted model binaries
 for n in $(ls coq/extract/*Extract.v | sed 's#.*/##; s#Extract.v##'); do
   coq/extract/build.sh "$n" || { echo "extraction of $n failed"; exit 1; }
 done
 # 3. harness + hooked xvc, from /repo's working tree
-cp /repo/Cargo.lock harness/Cargo.lock
-(cd harness && RUSTFLAGS="--cfg xvc_verif" CARGO_TARGET_DIR=/verif/build/target cargo build --offline --bins > ../build/harness-build.log 2>&1) || { tail -50 build/harness-build.log; echo "harness build failed"; exit 1; }
-(cd /repo && RUSTFLAGS="--cfg xvc_verif" CARGO_TARGET_DIR=/verif/build/target cargo build --offline -p xvc --bin xvc > /verif/build/xvc-build.log 2>&1) || { tail -50 /verif/build/xvc-build.log; echo "xvc build failed"; exit 1; }
+python3 - <<'PY' || { echo "harness / xvc build failed"; exit 1; }
+import sys, os, glob
+sys.path.insert(0, '.')
+from vlib import common as C
+bins = [os.path.basename(p)[:-3] for p in glob.glob('harness/src/bin/*.rs')]
+C.ensure_harness(bins)
+C.ensure_xvc()
+PY
 echo "setup ok"
